@@ -238,6 +238,40 @@ pub fn witness_holds(name: &str, sc: &Scenario, round: usize, vio: &Violation) -
     crate::witness::holds(name, sc, &pre, &out, vio)
 }
 
+pub fn trace_eval(label: &str, out: &EvalOut) {
+    println!("  ---- {} ----", label);
+    println!("  history in:");
+    for (k, v) in out.h_in.iter() {
+        println!("    {:30} = {:?}", k, v);
+    }
+    for (a, e) in out.events.iter() {
+        let s = match e {
+            Ev::Offer(j) => format!("offer {}", out.id(*j)),
+            Ev::Start(j) => format!("start {}", out.id(*j)),
+            Ev::Ok(j, r) => format!("ok {} -> {}", out.id(*j), r),
+            Ev::Fail(j, w) => format!("fail {} ({:?})", out.id(*j), w),
+            Ev::ContractErr(j) => format!("contract error {}", out.id(*j)),
+            Ev::CleanupOffer(j) => format!("cleanup offered {}", out.id(*j)),
+            Ev::Ack(j) => format!("cleanup acked {}", out.id(*j)),
+            Ev::Abort { failed_first, still_running } => format!("ABORT failed_first={:?} still_running={:?}", failed_first, still_running),
+            Ev::Misuse { call, job, res } => format!("misuse call {} on {:?} -> {}", call, job.map(|j| out.id(j).to_string()), res),
+        };
+        println!("  [{}] {}", a, s);
+    }
+    for (j, d) in out.disp.iter().enumerate() {
+        println!("  disposition {} = {:?} (state code {})", out.id(j), d, out.final_states[j].code);
+    }
+    if let Some(e) = &out.engine_error {
+        println!("  ENGINE ERROR: {}", e);
+    }
+    if let Some(h) = &out.h_out {
+        println!("  history out:");
+        for (k, v) in h.iter() {
+            println!("    {:30} = {:?}", k, v);
+        }
+    }
+}
+
 pub fn trace(sc: &Scenario) {
     println!("cfg: {:?}", sc.cfg);
     for (i, d) in sc.defs.iter().enumerate() {
